@@ -64,7 +64,7 @@ func genInput(r *rand.Rand, n int) ([]byte, string) {
 	if n <= 0 {
 		return []byte{}, "empty"
 	}
-	switch r.Intn(11) {
+	switch r.Intn(12) {
 	case 0: // random over a small alphabet
 		k := 2 + r.Intn(3)
 		out := make([]byte, n)
@@ -144,6 +144,24 @@ func genInput(r *rand.Rand, n int) ([]byte, string) {
 			c ^= 1
 		}
 		return out, "tworuns"
+	case 10: // nested prefixes: the longer the common prefix, the farther away its
+		// previous occurrence (many match candidates of different length and
+		// distance for one position: more than four OSAP edges)
+		var out []byte
+		for len(out) < n {
+			L := 5 + r.Intn(6)
+			w := make([]byte, L)
+			for i := range w {
+				w[i] = byte('a' + r.Intn(3))
+			}
+			for k := L; k >= 2 && len(out) < n; k-- {
+				out = append(out, w[:k]...)
+				out = append(out, byte('0'+r.Intn(10)))
+			}
+			out = append(out, w...)
+			out = append(out, byte('A'+r.Intn(4)))
+		}
+		return out[:n], "nestedprefix"
 	default: // zeros with sparse non-zero bytes
 		out := make([]byte, n)
 		for i := 0; i < n/9+1; i++ {
@@ -420,3 +438,62 @@ func maxI(a, b int) int {
 	}
 	return b
 }
+
+// genParserCollide targets the maximality clauses of C19 for the hash
+// parsers: few hash bits (every table slot is overwritten again and again,
+// so candidates are found through a colliding or a fallback entry), long
+// repeated substrings (9..40 bytes, beyond one 8-byte compare) separated by
+// short fresh material, windows that cover the buffer.
+func genParserCollide(seed int64, n int, tier string) []Script {
+	r := rand.New(rand.NewSource(seed))
+	kinds := []string{"HP", "BHP", "DHP", "BDHP", "BUP"}
+	var out []Script
+	for i := 0; i < n; i++ {
+		kind := kinds[i%len(kinds)]
+		B := pickInt(r, 64, 100, 150, 200, 256)
+		cfg := map[string]any{"kind": kind, "BufferSize": B, "ShrinkSize": pickInt(r, 0, 1, B/2, B-1),
+			"WindowSize": pickInt(r, B, 2*B, 0, B/2), "BlockSize": pickInt(r, 33, 64, 100, B, 2*B, 0)}
+		bits := func() int { return r.Intn(4) }
+		switch kind {
+		case "HP", "BHP":
+			cfg["InputLen"] = pickInt(r, 2, 3, 4, 5, 8)
+			cfg["HashBits"] = bits()
+		case "BUP":
+			cfg["InputLen"] = pickInt(r, 2, 3, 4, 5, 8)
+			cfg["HashBits"] = bits()
+			cfg["BucketSize"] = pickInt(r, 1, 2, 3)
+		default:
+			il1 := pickInt(r, 2, 3, 3, 4)
+			cfg["InputLen1"], cfg["InputLen2"] = il1, il1+1+r.Intn(8-il1)
+			cfg["HashBits1"], cfg["HashBits2"] = pickInt(r, 2, 3, 4, 6, 8), bits()
+		}
+		alpha := 2 + r.Intn(5)
+		total := 60 + r.Intn(340)
+		data := make([]byte, 0, total)
+		for len(data) < total {
+			if len(data) > 12 && r.Intn(3) != 0 {
+				s := r.Intn(len(data) - 9)
+				l := 9 + r.Intn(32)
+				for j := 0; j < l && len(data) < total && s+j < len(data); j++ {
+					data = append(data, data[s+j])
+				}
+			} else {
+				l := 1 + r.Intn(6)
+				for j := 0; j < l && len(data) < total; j++ {
+					data = append(data, byte(r.Intn(alpha)))
+				}
+			}
+		}
+		op := pumpOp(r, data, B, "mixed")
+		op["pnil"] = 0
+		op["pntl"] = pickInt(r, 0, 0, 30)
+		out = append(out, Script{
+			Tid:  "parser-collide-" + itoa(seed) + "-" + itoa(int64(i)),
+			Comp: "parser", Cfg: cfg, Ops: []map[string]any{op},
+			Tags: []string{"go", kind, "collide"},
+		})
+	}
+	return out
+}
+
+func init() { generators["parser-collide"] = genParserCollide }
